@@ -217,6 +217,11 @@ impl CanonicalRequest {
         ||| self.header_date() is None
     }
 
+}
+// (own module: one solver context per module keeps this function's queries small and independent of the rest of the unit)
+pub mod gaph_m {
+use super::*;
+impl CanonicalRequest {
 //@ fn canonical.rs impl CanonicalRequest :: get_auth_parameters_from_auth_header
 //@ hideutf8
 //@ props C08 C19 C13 C02 C17
@@ -244,7 +249,6 @@ impl CanonicalRequest {
 //@ bodystart
     hide(bmap);
     hide(hmap);
-    hide(qmap);
     broadcast use axiom_contains_str_key, axiom_maps_str_key_to_value, axiom_string_of_str_bytes, axiom_string_key_model;
     proof {
         lemma_lit_X_AMZ_DATE_LOWER(); lemma_lit_DATE(); lemma_lit_X_AMZ_SECURITY_TOKEN_LOWER(); lemma_lit_CREDENTIAL(); lemma_lit_SIGNATURE(); lemma_lit_SIGNED_HEADERS(); lemma_lit_AWS4_HMAC_SHA256_BYTES();
@@ -301,6 +305,9 @@ impl CanonicalRequest {
         assert(is_sorted_names(vals_bytes(signed_headers@), Seq::new(split(m[K_SIGNED_HEADERS()], 0x3b).len(), |i: int| str_bytes(latin1(split(m[K_SIGNED_HEADERS()], 0x3b)[i])))));
     }
 //@ end
+}
+} // mod gaph_m
+impl CanonicalRequest {
     /// the first value of a query parameter (C19: "the first value of a repeated X-Amz-* query parameter"), still percent-encoded
     pub open spec fn first_query(&self, name: Seq<u8>) -> Option<Seq<u8>> {
         if self.qview().contains_key(name) && self.qview()[name].len() > 0 { Some(self.qview()[name][0]) } else { None }
@@ -343,6 +350,11 @@ impl CanonicalRequest {
         &&& p.builder.request_timestamp is None && p.builder.canonical_request_sha256 is None
     }
 
+}
+// (own module: one solver context per module keeps this function's queries small and independent of the rest of the unit)
+pub mod gapq_m {
+use super::*;
+impl CanonicalRequest {
 //@ fn canonical.rs impl CanonicalRequest :: get_auth_parameters_from_query_parameters
 //@ hideutf8
 //@ props C08 C19 C13 C02 C17
@@ -380,6 +392,9 @@ impl CanonicalRequest {
         assert(is_sorted_names(vals_bytes(signed_headers@), split(str_bytes(latin1(self.first_query_decoded(Q_SIGNED_HEADERS()))), 0x3b)));
     }
 //@ end
+}
+} // mod gapq_m
+impl CanonicalRequest {
     pub open spec fn first_auth_header(&self) -> Seq<u8> { self.hview()[H_AUTHORIZATION()][0] }
     pub open spec fn first_query_alg(&self) -> Seq<u8> { self.qview()[Q_ALGORITHM()][0] }
     pub proof fn lemma_hview_key(&self, k: Seq<u8>)
